@@ -16,10 +16,10 @@ def Pool.poolSize (p : Pool) : Cap := p.sem.value
 theorem C15_negative_rejected (p : Pool) (v : Int) (h : v < 0) : p.doSetSize v = (p, .err .valueError) := by
   unfold doSetSize; simp [h]
 
-/-- as-is semantics of the assignment: the *free-slot counter* is overwritten, nothing else is touched — no waiter
-is woken, no task is disturbed -/
+/-- as-is semantics of the assignment: the *free-slot counter* is overwritten, nothing else is touched (but the ghost
+bit that records the assignment) — no waiter is woken, no task is disturbed -/
 theorem C15_as_is_setter (p : Pool) (v : Int) (h : 0 ≤ v) :
-    p.doSetSize v = ({ p with sem := { p.sem with value := .fin v.toNat } }, .none) := by
+    p.doSetSize v = ({ p with sem := { p.sem with value := .fin v.toNat }, resized := true }, .none) := by
   unfold doSetSize; simp [Int.not_lt.mpr h]
 
 /-- "a lower value disturbs no running task" does hold: task records, registries, groups and spawners are unchanged -/
